@@ -69,15 +69,11 @@ static void OnAbort(int)
    WriteErr("ASSERTION/abort() during phase="); WriteErr(g_phase); WriteErr("\n    #0 0x0 in phase:"); WriteErr(g_phase); WriteErr(" (harness)\n");
    signal(SIGABRT, SIG_DFL); raise(SIGABRT);
 }
-// ---- read containment (used by the micro-Message part only, never in --replay): thousands of cases of one known class (F12: reads
-// outside the buffer) would otherwise each cost a worker process.  While g_containReads is set, an ASan READ report does not end the
-// process (the binary is built with -fsanitize-recover=address and runs with halt_on_error=0) and a SIGSEGV/SIGBUS on a READ access is
-// caught and unwound with siglongjmp; both are recorded and turned into a violation by the case function.  Everything else -- any WRITE,
-// any report outside a contained region -- ends the process with the usual exit code, exactly as with halt_on_error=1.
-static volatile int g_containReads = 0;
-static volatile int g_containedAsanReads = 0;
-static char g_containedKind[64];
-static char g_containedFirst[256];
+// ---- read-fault containment (used by the micro-Message part only, never in --replay): thousands of cases of one known class (F12:
+// reads outside the buffer) would otherwise each cost a worker process.  The input is placed at the very end of a private mapping that
+// is followed by 4 GiB of PROT_NONE address space, so that any forward read past the supplied bytes (the reader adds 32-bit lengths to
+// a pointer) faults; inside a FaultScope the SIGSEGV/SIGBUS of a READ access is caught and unwound with siglongjmp and the case
+// function turns it into a violation.  A faulting WRITE is never contained.  Sanitizer reports are always fatal.
 static sigjmp_buf g_faultJmp;
 static volatile int g_faultCaught = 0;        // 1 = read fault, 2 = write fault
 static void OnAsanReport(const char * report)
@@ -85,19 +81,7 @@ static void OnAsanReport(const char * report)
    if (strstr(report, "SEGV on unknown address") || strstr(report, "stack-overflow")) {
       if (strstr(report, "caused by a WRITE memory access")) WriteErr("WRITE of size 0 at wild-address (from SEGV report)\n");
       else if (strstr(report, "caused by a READ memory access")) WriteErr("READ of size 0 at wild-address (from SEGV report)\n");
-      return;   // deadly signal: the runtime ends the process itself
    }
-   const bool isRead = (strstr(report, "\nREAD of size") != NULL) && (strstr(report, "\nWRITE of size") == NULL);
-   if (g_containReads && isRead) {
-      if (g_containedAsanReads++ == 0) {
-         static const char * kinds[] = {"heap-buffer-overflow", "heap-use-after-free", "stack-buffer-overflow", "global-buffer-overflow", "unknown-crash", "use-after-poison", NULL};
-         const char * k = "other"; for (int i = 0; kinds[i]; i++) if (strstr(report, kinds[i])) { k = kinds[i]; break; }
-         strncpy(g_containedKind, k, sizeof(g_containedKind) - 1);
-         const char * e = strstr(report, "ERROR: AddressSanitizer"); if (e) { size_t n = strcspn(e, "\n"); if (n > sizeof(g_containedFirst) - 1) n = sizeof(g_containedFirst) - 1; memcpy(g_containedFirst, e, n); g_containedFirst[n] = 0; }
-      }
-      return;   // recover mode: execution continues after the faulting read
-   }
-   _exit(87);   // same as halt_on_error=1 with exitcode=87
 }
 static void OnFault(int, siginfo_t *, void * ucv)
 {
@@ -109,12 +93,23 @@ struct FaultScope {   // installs the containment handlers for SIGSEGV/SIGBUS an
    struct sigaction oldSegv, oldBus; bool on;
    explicit FaultScope(bool enable) : on(enable)
    {
-      g_faultCaught = 0; g_containedAsanReads = 0; g_containedKind[0] = 0; g_containedFirst[0] = 0;
+      g_faultCaught = 0;
       if (!on) return;
       struct sigaction sa; memset(&sa, 0, sizeof(sa)); sa.sa_sigaction = OnFault; sa.sa_flags = SA_SIGINFO | SA_NODEFER | SA_ONSTACK; sigemptyset(&sa.sa_mask);
-      sigaction(SIGSEGV, &sa, &oldSegv); sigaction(SIGBUS, &sa, &oldBus); g_containReads = 1;
+      sigaction(SIGSEGV, &sa, &oldSegv); sigaction(SIGBUS, &sa, &oldBus);
    }
-   ~FaultScope() { if (on) { g_containReads = 0; sigaction(SIGSEGV, &oldSegv, NULL); sigaction(SIGBUS, &oldBus, NULL); } }
+   ~FaultScope() { if (on) { sigaction(SIGSEGV, &oldSegv, NULL); sigaction(SIGBUS, &oldBus, NULL); } }
+};
+// input placed so that its last byte is the last accessible byte before 4 GiB of inaccessible address space
+struct GuardArena {
+   uint8_t * base; size_t rw; uint8_t * guard;
+   GuardArena() : base(NULL), rw(4u << 20), guard(NULL)
+   {
+      const size_t total = rw + ((size_t)4 << 30) + 4096;
+      void * m = mmap(NULL, total, PROT_NONE, MAP_PRIVATE | MAP_ANONYMOUS | MAP_NORESERVE, -1, 0);
+      if (m != MAP_FAILED && mprotect(m, rw, PROT_READ | PROT_WRITE) == 0) { base = (uint8_t *)m; guard = base + rw; }
+   }
+   uint8_t * Place(const void * d, size_t n) { if (!base || n > rw) return NULL; uint8_t * p = guard - n; if (n) memcpy(p, d, n); return p; }
 };
 static void InstallDeathAttribution()
 {
